@@ -14,6 +14,7 @@
 import json, os, random, re, time, hashlib, copy
 import vcommon as V
 
+READY = True
 PROPS = {
  'C10': dict(level='model_checking', design='DESIGN.md 6 C10',
    text='Compress.tla transcribes TryCompress as a decision table (Decision) and a one-key state machine '
